@@ -266,6 +266,20 @@ def coerce(v, sort):
         return V(ite(v.t, z3.IntVal(1), z3.IntVal(0)), INT)
     if isinstance(sort, OptS) and v.s == sort.inner:
         return V(opt_some(sort, v.t), sort)
+    if isinstance(v.s, SeqS) and isinstance(sort, SeqS) and v.t is not None and isinstance(v.s.elem, TupS) and isinstance(sort.elem, (TupS, SeqS)):
+        # elementwise: a list of tuple displays used where the declared element sort models inner tuples as sequences
+        j = qvar("jx")
+        try:
+            ej = coerce(V(seq_get(v.t, j), v.s.elem), sort.elem)
+        except TypeError:
+            ej = None
+        if ej is not None:
+            r = fresh("conv", sort)
+            _pending_axioms.append(z3.And(seq_len(r) == seq_len(v.t), z3.ForAll([j], seq_get(r, j) == ej.t, patterns=[seq_get(r, j)])))
+            return V(r, sort)
+    if isinstance(v.s, TupS) and isinstance(sort, SeqS) and all(e == sort.elem for e in v.s.elems):
+        # a tuple display used where a variable-length tuple (modelled as a sequence) is expected
+        return seq_lit(sort, [V(tup_get(v.t, i), sort.elem) for i in range(len(v.s.elems))])
     if isinstance(v.s, TupS) and isinstance(sort, TupS) and len(v.s.elems) == len(sort.elems):
         parts = [coerce(V(tup_get(v.t, i), e), se) for i, (e, se) in enumerate(zip(v.s.elems, sort.elems))]
         return V(tup_mk(sort, *[p.t for p in parts]), sort)
